@@ -33,7 +33,7 @@ func NewIncSolver() *IncSolver {
 	if bin == "" {
 		bin = "z3-new"
 	}
-	c := exec.Command(bin, "-in", "-t:2000")
+	c := exec.Command(bin, "-in", "-t:400")
 	in, _ := c.StdinPipe()
 	out, _ := c.StdoutPipe()
 	c.Stderr = io.Discard
@@ -71,6 +71,9 @@ func (s *IncSolver) Feasible(asserts []*Term) bool {
 		s.Time += d
 		if os.Getenv("GOVC_TRACE") != "" && d > 20*time.Millisecond {
 			fmt.Fprintf(os.Stderr, "inc query %v: %d asserts, %d nodes\n", d.Round(time.Millisecond), len(asserts), termSize(asserts))
+			if d > time.Second && os.Getenv("GOVC_TRACE") == "dump" {
+				os.WriteFile(fmt.Sprintf("/tmp/slow-%d.smt2", s.N), []byte("(set-logic ALL)\n"+Script(asserts, nil, false)+"(check-sat)\n"), 0o644)
+			}
 		}
 	}()
 	var b bytes.Buffer
